@@ -8,7 +8,7 @@ Open Scope N_scope.
    the result is nil/EOF or the "too large" error - never a panic (slice bounds), never a spin (zero-length Read on a
    full buffer, or an endless loop of empty frames); every frame handed to the link service has between 2 and
    MaxNDNPacketSize bytes; the write offset never leaves the fixed buffer (no growth at all). *)
-Theorem stream_total : forall stream sched, Forall ign_nodata sched ->
+Theorem stream_total : forall stream sched,
   let '(res, frames, _, st) := run true stream sched in
   (res = SOk \/ res = SErrTooMuch) /\ Forall frame_ok frames /\ recvOff st <= c_recvBufSize.
 Proof. exact stream_total_lemma. Qed.
